@@ -83,6 +83,11 @@ FUNCTIONS = [
     # the validator loop; `on_error` is a user callable that may update the row it is given (clear does): its calls are
     # hoisted into `extCall` statements, which write the updated arguments back
     # Flow: the dispatch of one link (the body of `_chain`'s loop) and the folding of checkpoints into the chain
+    # dump_to_sql: what the mode means for the table — drop first (rewrite), which keys drive the upsert (update)
+    ('sql_rewrite_drop', 'dataflows.processors.dumpers.to_sql', ['SQLDumper', 'process_resource', '@if:0', '@else', '@if:0'],
+     ['mode', 'storage']),
+    ('sql_update_keys', 'dataflows.processors.dumpers.to_sql', ['SQLDumper', 'process_resource', '@if:0', '@else', '@if:2'],
+     ['mode', 'converted_resource', 'schema_descriptor', 'update_keys']),
     ('flow_chain_body', 'dataflows.base.flow', ['Flow', '_chain', '@for:0', '@body']),
     ('flow_preprocess', 'dataflows.base.flow', ['Flow', '_preprocess_chain'], ['self.chain']),
     ('checkpoint_handle', 'dataflows.processors.checkpoint', ['checkpoint', 'handle_flow_checkpoint'], ['self.steps']),
@@ -483,6 +488,12 @@ def locate(tree, path):
         if name == '@body':
             # the statements of a compound statement's body, as one statement
             node = ast.If(test=ast.Constant(True), body=list(node.body), orelse=[])
+            continue
+        if name == '@else':
+            # the `else` block of an `if` statement, as one statement
+            if not isinstance(node, ast.If) or not node.orelse:
+                return None
+            node = ast.If(test=ast.Constant(True), body=list(node.orelse), orelse=[])
             continue
         if name.startswith('@if:'):
             ifs = [st for st in getattr(node, 'body', []) if isinstance(st, ast.If)]
